@@ -134,6 +134,11 @@ class FWorld(DWorld):
     def close_wormhole(self, i):
         s = self.sides[i]
         s.closing = True
-        d = s.c.api("close")
+        c = s.c
+        c.closed_when = dict(boss=c.state("B"), step=0, nev=len(c.ev))
+        d = c.api("close")
         if d is not None:
+            entry = []
+            c.deferred_results.setdefault("close", []).append(entry)
+            d.addCallbacks(lambda r: entry.append(("ok", r)), lambda f: entry.append(("err", f.type.__name__)))
             d.addCallbacks(lambda r: s.close_result.append(("ok", r)), lambda f: s.close_result.append(("err", f.type.__name__)))
